@@ -162,6 +162,46 @@ def correspondences(tier, rng):
         if c != d or R1 != R2: return "encrypt(decrypt(x)) != x"
     out.append(Corr("decrypt", cases, lambda x: (lambda r: (list(r[0]), r[1]))(eexec.decrypt(bytes(x[0]), x[1])), oracle=oracle_eexec))
     out.append(Corr("encrypt", cases, lambda x: (lambda r: (list(r[0]), r[1]))(eexec.encrypt(bytes(x[0]), x[1]))))
+
+    # --- packed deltas (gvar/cvar run-length format)
+    from fontTools.ttLib.tables.TupleVariation import TupleVariation as TV
+    def gen_deltas():
+        out_ = []
+        for _ in range(rng.randint(0, 6)):
+            k = rng.below(6)
+            ln = rng.choice([1, 1, 2, 3, 5, 63, 64, 65, 127, 128, 129]) if rng.chance(25) else rng.randint(1, 6)
+            if k == 0: out_ += [0] * ln
+            elif k == 1: out_ += [rng.choice([-128, -127, -1, 1, 2, 126, 127, rng.randint(-128, 127)]) for _ in range(ln)]
+            elif k == 2: out_ += [rng.choice([-32768, -129, 128, 255, 256, 32767, rng.randint(-32768, 32767)]) for _ in range(ln)]
+            elif k == 3: out_ += [rng.choice([-2**31, -32769, 32768, 65536, 2**31 - 1, rng.randint(-2**31, 2**31 - 1)]) for _ in range(min(ln, 70))]
+            elif k == 4: out_ += [rng.choice([0, 0, 1, -1, 300, 5]) for _ in range(ln)]          # zeros inside byte and word runs
+            else: out_ += [rng.choice([2**31, -2**31 - 1, 0, 7])] if rng.chance(10) else [rng.randint(-200, 200) for _ in range(ln)]
+        return out_
+    cases = [gen_deltas() for _ in range(n)]
+    def oracle_deltas(ds):
+        try: b = bytes(TV.compileDeltaValues_(list(ds)))
+        except OverflowError: return None
+        got, pos = TV.decompileDeltas_(len(ds), b, 0)
+        if list(got) != list(ds) or pos != len(b): return "deltas %r compile to %r and decode to %r (consumed %d of %d)" % (ds[:20], list(b)[:30], list(got)[:20], pos, len(b))
+        return None
+    out.append(Corr("compileDeltaValues", cases, lambda ds: res(lambda: list(TV.compileDeltaValues_(list(ds)))) if ds else Ok([]), oracle=oracle_deltas))
+    dcases = []
+    for ds in cases[: n // 2]:
+        try: b = list(TV.compileDeltaValues_(list(ds)))
+        except OverflowError: continue
+        k = rng.below(6)
+        if k == 0 and b: b = b[: rng.randint(0, len(b) - 1)]                                   # truncated
+        elif k == 1 and b: b[rng.below(len(b))] = rng.below(256)                                # one byte replaced
+        elif k == 2: b = b + [rng.below(256) for _ in range(rng.randint(1, 4))]               # trailing bytes
+        need = len(ds) if rng.chance(75) else max(0, len(ds) + rng.randint(-2, 2))
+        dcases.append((need, b))
+    def impl_decomp(x):
+        need, b = x
+        def run():
+            got, pos = TV.decompileDeltas_(need, bytes(b), 0)
+            return (list(got), list(b[pos:]))
+        return res(run)
+    out.append(Corr("decompileDeltas", dcases, impl_decomp))
     return out
 
 def sweeps(tier, rng):
